@@ -873,12 +873,21 @@ func indexDischarged(w *World, info *types.Info, f *FuncInfo, ix *ast.IndexExpr,
 			if guarded {
 				return "guarded by 'index >= len(input) -> return'"
 			}
-			// prevChar: reads input[readPosition-k], k in {1,2}; every caller sits in a loop that requires ch != 0,
-			// i.e. position < len(input) and readPosition = position+1
+			// prevChar: reads input[F-k] behind the cursor. Every caller sits in a loop that requires ch != 0, i.e.
+			// position < len(input) and readPosition = position+1 <= len(input): the upper bound holds for k >= 0.
+			// Lower bound: the constructor has called readChar, so readPosition >= 1 and position >= 0; anything
+			// beyond that (readPosition-2, position-1, ...) needs a dominating test of the same field.
 			if be, ok := unparen(ix.Index).(*ast.BinaryExpr); ok && be.Op == token.SUB {
-				if k, ok := constInt(info, be.Y); ok && (k == 1 || k == 2) {
-					if callersRequireNonNul(w, m, f) {
-						return "relative read behind the cursor; every caller is inside a loop whose condition excludes NUL (so 1 <= readPosition <= len(input)), and k=2 only when readPosition >= 2"
+				if k, ok := constInt(info, be.Y); ok && k >= 1 {
+					_, fld := fieldOf(info, be.X)
+					base := int64(-1)
+					if fld != nil && fld == m.aheadField() {
+						base = 1
+					} else if fld != nil && isPosField(m, fld) {
+						base = 0
+					}
+					if base >= 0 && callersRequireNonNul(w, m, f) && (k <= base || lowerGuarded(w, info, f, ix, fld, k)) {
+						return "relative read behind the cursor; every caller is inside a loop whose condition excludes NUL (so 1 <= readPosition <= len(input)), and the offset is within the field's known lower bound or under a dominating test of that field"
 					}
 				}
 			}
@@ -936,6 +945,79 @@ func indexDischarged(w *World, info *types.Info, f *FuncInfo, ix *ast.IndexExpr,
 
 // callersRequireNonNul: every call of f in the lexer lies inside a for loop
 // whose condition is false for ch = 0.
+// aheadField: the cursor field readChar indexes the input with (one ahead of position).
+func (m *lexerModel) aheadField() *types.Var {
+	var out *types.Var
+	if m.readChar == nil {
+		return nil
+	}
+	inspectBody(m.readChar.Decl.Body, false, func(n ast.Node) bool {
+		if ix, ok := n.(*ast.IndexExpr); ok {
+			if _, fld := fieldOf(m.info, ix.X); fld == m.input {
+				if _, pf := fieldOf(m.info, ix.Index); pf != nil {
+					out = pf
+				}
+			}
+		}
+		return true
+	})
+	return out
+}
+
+func isPosField(m *lexerModel, fld *types.Var) bool {
+	for _, p := range m.posF {
+		if p == fld {
+			return true
+		}
+	}
+	return false
+}
+
+// lowerGuarded: at ix, fld >= k is known from an enclosing `if fld >= c` / `fld > c` or from a preceding
+// top-level `if fld < c { return }` / `fld <= c` of the same function.
+func lowerGuarded(w *World, info *types.Info, f *FuncInfo, at ast.Node, fld *types.Var, k int64) bool {
+	implies := func(cond ast.Expr, truth bool) bool {
+		for _, cj := range conjuncts(cond) {
+			be, ok := unparen(cj).(*ast.BinaryExpr)
+			if !ok {
+				continue
+			}
+			if _, g := fieldOf(info, be.X); g != fld {
+				continue
+			}
+			c, ok := constInt(info, be.Y)
+			if !ok {
+				continue
+			}
+			if truth {
+				if (be.Op == token.GEQ && c >= k) || (be.Op == token.GTR && c+1 >= k) {
+					return true
+				}
+			} else if len(conjuncts(cond)) == 1 {
+				if (be.Op == token.LSS && c >= k) || (be.Op == token.LEQ && c+1 >= k) {
+					return true
+				}
+			}
+		}
+		return false
+	}
+	var child ast.Node = at
+	for p := w.Parent(at); p != nil; child, p = p, w.Parent(p) {
+		if ifs, ok := p.(*ast.IfStmt); ok && child == ast.Node(ifs.Body) && implies(ifs.Cond, true) {
+			return true
+		}
+	}
+	for _, st := range f.Decl.Body.List {
+		if st.End() > at.Pos() {
+			break
+		}
+		if ifs, ok := st.(*ast.IfStmt); ok && ifs.Else == nil && ifs.Init == nil && terminates(ifs.Body.List) && implies(ifs.Cond, false) {
+			return true
+		}
+	}
+	return false
+}
+
 func callersRequireNonNul(w *World, m *lexerModel, f *FuncInfo) bool {
 	n := 0
 	ok := true
